@@ -214,6 +214,21 @@ def run(ctx):
             ok_true = vx is not None and isinstance(vx, ast.Constant) and vx.value is True and \
                 len(comp.generators) == 1 and unparse(kx) == unparse(comp.generators[0].target) and \
                 unparse(comp.generators[0].iter) in ('d.keys()', 'd', 'd.items()') and not comp.generators[0].ifs
+            if not ok_true and isinstance(cs.node.value, ast.Name):
+                # accumulator form: acc = {}; for k in d[.keys()]: acc[k] = True; return acc
+                acc = cs.node.value.id
+                inits = [s_ for s_ in iter_own(pf) if isinstance(s_, ast.Assign) and unparse(s_.targets[0]) == acc]
+                loops_ = [l_ for l_ in iter_own(pf) if isinstance(l_, ast.For) and any(
+                    isinstance(x_, ast.Subscript) and isinstance(x_.ctx, ast.Store) and unparse(x_.value) == acc
+                    for x_ in ast.walk(l_))]
+                if len(inits) == 1 and ((isinstance(inits[0].value, ast.Dict) and not inits[0].value.keys) or
+                                        unparse(inits[0].value) == 'dict()') and len(loops_) == 1:
+                    l_ = loops_[0]
+                    body_ = [b_ for b_ in l_.body if not isinstance(b_, ast.Pass)]
+                    ok_true = unparse(l_.iter) in ('d.keys()', 'd') and isinstance(l_.target, ast.Name) and \
+                        len(body_) == 1 and isinstance(body_[0], ast.Assign) and \
+                        unparse(body_[0].targets[0]) == '%s[%s]' % (acc, l_.target.id) and \
+                        isinstance(body_[0].value, ast.Constant) and body_[0].value.value is True and not l_.orelse
         elif (p + ' is None', True) in facts:
             ok_none = isinstance(v, ast.Dict) or unparse(v) == 'd'
     dflt = None
@@ -501,8 +516,12 @@ def run(ctx):
     ok = len(empt) == 1
     if ok:
         facts = [(unparse(t_), pol) for t_, pol in atomic_facts(empt[0])]
-        ok = ("self.strict_latex_spaces['between-latex-constructs']", False) in facts and \
-            ('len(content.strip()) == 0', True) in facts
+        # "the text is blank" in any of its spellings: len(x.strip()) == 0, not x.strip(), x.strip() == ''
+        blank = any((t_.replace('"', "'"), pol) in (
+            ('len(content.strip()) == 0', True), ('content.strip()', False), ("content.strip() == ''", True),
+            ('len(content.strip())', False), ('len(content.strip()) > 0', False), ('len(content.strip()) != 0', False),
+            ("content.strip() != ''", False)) for t_, pol in facts)
+        ok = ("self.strict_latex_spaces['between-latex-constructs']", False) in facts and blank
     ctx.decide('R03i', ok, m, empt[0] if empt else cf,
                'whitespace-only text dropped iff between-latex-constructs is off',
                'chars_node_to_text drops text on %s' % (
@@ -575,6 +594,68 @@ def run(ctx):
                      'documented rules does not depend on what another caller added to "its" default database', 2)
     from . import c09 as _c09
     _c09.default_db_fresh(ctx, 'R03n', repo)
+
+    # ---- R03o: braces of a group are kept by the length of its rendered contents
+    ctx.rule('R03o', 'group_node_to_text keeps the delimiters exactly when keep_braced_groups is set and the rendered '
+                     'contents -- the very text placed between the delimiters -- is at least keep_braced_groups_minlen long', 1)
+    gf = meths.get('group_node_to_text')
+    if gf is None:
+        raise AnalysisError('anchor vanished: group_node_to_text')
+    try:
+        grc = [c for c in symex.Walker(want_returns=True, pure=('_groupnodecontents_to_text', 'strip', 'lstrip', 'rstrip')).run(gf)
+               if c.kind == 'return']
+    except symex.TooManyPaths:
+        grc = []
+    bad_g, n_keep = None, 0
+    for c in grc:
+        v = c.sub
+        parts = []
+
+        def flat(e):
+            if isinstance(e, ast.BinOp) and isinstance(e.op, ast.Add):
+                flat(e.left)
+                flat(e.right)
+            else:
+                parts.append(e)
+        flat(v)
+        if len(parts) == 3 and 'delimiters' in unparse(parts[0]) and 'delimiters' in unparse(parts[2]):
+            n_keep += 1
+            mid = unparse(parts[1])
+            facts = symex.facts_of(c.conds, c.env)
+            okf = ('self.keep_braced_groups', True) in facts and (
+                ('len(%s) >= self.keep_braced_groups_minlen' % mid, True) in facts or
+                ('len(%s) < self.keep_braced_groups_minlen' % mid, False) in facts)
+            if not okf and bad_g is None:
+                bad_g = (c, mid, sorted(t for t, p_ in facts if 'minlen' in t))
+    ctx.decide('R03o', bad_g is None and n_keep > 0, m, bad_g[0].node if bad_g else gf,
+               'delimiters kept under keep_braced_groups and len(<contents placed between them>) >= minlen',
+               'group_node_to_text keeps the delimiters around %s under the test %s: the length that is compared is not '
+               'the length of the text placed between the delimiters (surrounding whitespace of a group such as `{a }` is '
+               'part of its rendering), so groups at the length limit lose or keep their braces against the documented rule'
+               % (bad_g[1] if bad_g else '?', bad_g[2] if bad_g else 'none'), construct='group_node_to_text: kept braces')
+
+    # ---- R03p: an empty rendering is a value, not "absent"
+    ctx.rule('R03p', 'a rendered text (result of a *_to_text call) is never used as a truth value in latex2text: an '
+                     'argument that renders to the empty string is present', 0)
+    for mod_ in sorted(repo.modules.values(), key=lambda m_: m_.name):
+        if not mod_.name.startswith('pylatexenc.latex2text'):
+            continue
+        for n_ in ast.walk(mod_.tree):
+            tests = []
+            if isinstance(n_, ast.BoolOp):
+                tests = list(n_.values[:-1])
+            elif isinstance(n_, (ast.If, ast.IfExp, ast.While)):
+                tests = [n_.test]
+            for t_ in tests:
+                if isinstance(t_, ast.UnaryOp) and isinstance(t_.op, ast.Not):
+                    t_ = t_.operand
+                if isinstance(t_, ast.Call) and call_name(t_).endswith('_to_text'):
+                    ctx.refuted('R03p', mod_, enclosing_stmt(n_) or n_, 'the text rendered by %s is used as a truth value '
+                                '(%s): an argument that is present but renders to the empty string (`\\item[]`, '
+                                '`\\item[{}]`) is treated like an absent one' % (short(t_, 50), short(n_, 70)),
+                                construct='rendered text as truth value: ' + short(t_, 50))
+    ctx.holds('R03p', m, None, 'no rendered text is used as a truth value', construct='rendered-text truth value scan',
+              trivial=True)
 
     return 'other', (
         'Decides the policy tables against the documented semantics and the shape of the functions '
